@@ -28,6 +28,7 @@ class Op:
     node: object = None  # the ast node of the operation (Call, BinOp, Subscript, ...)
     side: str = ""  # for binop: 'L' if the traced value is the left operand
     other: object = None  # for binop: the other operand expr; for arg: position/keyword
+    frame: object = field(default=None, compare=False)  # Frame when the op happened inside a followed helper
 
     def __repr__(self) -> str:
         extra = ""
@@ -36,6 +37,20 @@ class Op:
         elif self.kind in ("arg", "marg"):
             extra = f"#{self.other}"
         return f"{self.kind}:{self.name}{('(' + extra + ')') if extra else ''}"
+
+
+@dataclass(frozen=True)
+class Frame:
+    """one followed helper call: expressions inside ``ff`` are to be read with the helper's parameters bound to
+    ``binding`` (argument expressions of the call, which live in ``parent_ff`` at cfg node ``at``)"""
+    ff: object
+    binding: dict = field(compare=False, hash=False)
+    parent_ff: object = None
+    at: int = -1
+    parent: object = None  # Frame of parent_ff, None when parent_ff is the function the query started in
+
+    def reparent(self, outer: "Frame") -> "Frame":
+        return Frame(self.ff, self.binding, self.parent_ff, self.at, outer if self.parent is None else self.parent.reparent(outer))
 
 
 @dataclass(frozen=True)
@@ -102,6 +117,7 @@ class FuncFacts:
         self._memo: dict[tuple, tuple] = {}
         self._budget = 0
         self._ctx = None
+        self._follow = False
 
     def is_object_receiver(self, recv: ast.expr) -> bool:
         """receiver of a method call is an xeofs object (typed attribute / typed local), so that the
@@ -196,15 +212,138 @@ class FuncFacts:
         return False
 
     # ---------------------------------------------------------------- paths
-    def paths(self, expr: ast.expr, at: int | None = None, spine_only: bool = False) -> list[Path]:
+    def paths(self, expr: ast.expr, at: int | None = None, spine_only: bool = False, follow: bool = False) -> list[Path]:
+        """``follow=True``: a call of a small private helper (``self._h(...)``, ``cls._h(...)`` or a private module
+        function; not overridden in any subclass) is replaced by the provenance of the helper's return values with the
+        helper's parameters bound to the arguments of this call - extract-method refactorings then leave the paths
+        unchanged.  Default off: a helper call is an atom of kind 'call'."""
         if at is None:
             at = self.node_of(expr)
         self._budget = 0
-        res = self._paths(expr, at, frozenset(), {}, spine_only)
+        prev = self._follow
+        self._follow = bool(follow)
+        try:
+            res = self._paths(expr, at, frozenset(), {}, spine_only)
+        finally:
+            self._follow = prev
         return list(res)
 
+    # -- interprocedural step ------------------------------------------------
+    FOLLOW_DEPTH = 3
+    _follow_depth = 0
+
+    def follow_target(self, e: ast.Call) -> "FuncInfo | None":
+        """the private helper a call statically resolves to, when it is safe to look inside it"""
+        f = e.func
+        mod = self.fn.module
+        pm = getattr(mod, "pm", None)
+        h = None
+        if isinstance(f, ast.Attribute) and isinstance(f.value, ast.Name) and f.value.id in ("self", "cls") and self.fn.cls is not None:
+            if not f.attr.startswith("_") or f.attr.startswith("__"):
+                return None
+            h = self.fn.cls.resolve(f.attr)
+            if h is None or pm is None:
+                return None
+            for k in pm.classes.values():
+                if k is not h.cls and f.attr in k.methods and self.fn.cls in k.mro:
+                    return None  # a subclass overrides the helper: dispatch could pick another body
+        elif isinstance(f, ast.Name) and f.id.startswith("_") and f.id in mod.functions:
+            h = mod.functions[f.id]
+        if h is None or h is self.fn or h.is_abstract:
+            return None
+        a = h.node.args
+        if a.vararg is not None or a.kwarg is not None:
+            return None
+        if any(isinstance(x, ast.Starred) for x in e.args) or any(k.arg is None for k in e.keywords):
+            return None
+        body = [n for n in walk_no_nested(h.node) if isinstance(n, ast.stmt) and n is not h.node]
+        if len(body) > 40 or not any(isinstance(n, ast.Return) and n.value is not None for n in body):
+            return None
+        if any(isinstance(n, (ast.Yield, ast.YieldFrom)) for n in walk_no_nested(h.node)):
+            return None
+        return h
+
+    @staticmethod
+    def bind_call(h: "FuncInfo", e: ast.Call) -> dict:
+        a = h.node.args
+        pos = [x.arg for x in a.posonlyargs + a.args]
+        if pos and not h.is_static and h.cls is not None:
+            pos = pos[1:]  # self / cls
+        b: dict = {}
+        for i, x in enumerate(e.args):
+            if i < len(pos):
+                b[pos[i]] = x
+        for k in e.keywords:
+            if k.arg:
+                b[k.arg] = k.value
+        for pn, d in h.defaults().items():
+            b.setdefault(pn, d)
+        return b
+
+    def _followed(self, e: ast.Call, h: "FuncInfo", at: int, stack, env, spine) -> list[Path] | None:
+        if FuncFacts._follow_depth >= self.FOLLOW_DEPTH:
+            return None
+        hf = FuncFacts.of(h)
+        b = self.bind_call(h, e)
+        FuncFacts._follow_depth += 1
+        try:
+            cps: list[Path] = []
+            for r in [n for n in walk_no_nested(h.node) if isinstance(n, ast.Return) and n.value is not None]:
+                cps += hf.paths(r.value, spine_only=spine, follow=True)
+        finally:
+            FuncFacts._follow_depth -= 1
+        fr = Frame(hf, b, self, at, None)
+        return self._lift(cps, fr, lambda a: self._paths(a, at, stack, env, spine))
+
+    def _lift(self, cps, fr: Frame, arg_paths) -> list[Path]:
+        """callee paths -> caller paths: parameter atoms are replaced by the paths of the bound argument"""
+        h = fr.ff.fn
+        b = fr.binding
+        consts = {pn: x for pn, x in b.items() if isinstance(x, ast.Constant)}
+        first = h.positional_params[0] if (h.positional_params and not h.is_static and h.cls is not None) else None
+        out: list[Path] = []
+        for cp in cps:
+            ops = tuple(self._reframe(self._rekey(o, consts), fr) for o in cp.ops)
+            if cp.atom.kind == "param" and cp.atom.name in b:
+                for p in arg_paths(b[cp.atom.name]):
+                    out.append(Path(p.atom, p.ops + ops, p.at))
+            elif cp.atom.kind == "param" and cp.atom.name == first:
+                out.append(Path(Atom("name", "self", cp.atom.node), ops, fr.at))
+            else:
+                out.append(Path(cp.atom, ops, fr.at))
+        return out
+
+    @staticmethod
+    def _reframe(o: Op, fr: Frame) -> Op:
+        f2 = fr if o.frame is None else o.frame.reparent(fr)
+        return Op(o.kind, o.name, o.node, o.side, o.other, f2)
+
+    def eval_in(self, frame: "Frame | None", expr: ast.expr, spine_only: bool = False) -> list[Path]:
+        """provenance of an expression that lives inside a followed helper (``frame`` = the frame of the op it was
+        found through), expressed in terms of the function the query started in (= self)"""
+        if frame is None:
+            return self.paths(expr, spine_only=spine_only, follow=True)
+        cps = frame.ff.paths(expr, spine_only=spine_only, follow=True)
+        parent_ff = frame.parent_ff
+        return parent_ff._lift(cps, frame, lambda a: self._eval_parent(frame, a, spine_only))
+
+    def _eval_parent(self, frame: Frame, a: ast.expr, spine_only: bool) -> list[Path]:
+        if frame.parent is None:
+            return frame.parent_ff.paths(a, at=frame.at, spine_only=spine_only, follow=True)
+        return self.eval_in(frame.parent, a, spine_only)
+
+    @staticmethod
+    def _rekey(o: Op, consts: dict) -> Op:
+        """``container[key_param]`` inside a helper called with a literal key: the subscript op carries the literal"""
+        if o.kind == "subscript" and isinstance(getattr(o.node, "slice", None), ast.Name) and o.node.slice.id in consts:
+            c = consts[o.node.slice.id]
+            n2 = ast.Subscript(value=o.node.value, slice=c, ctx=ast.Load())
+            ast.copy_location(n2, o.node)
+            return Op("subscript", norm(c), n2, o.side, o.other)
+        return o
+
     def _paths(self, e: ast.expr, at: int, stack: frozenset, env: dict, spine: bool) -> tuple:
-        key = (id(e), at, spine, tuple(sorted(env)))
+        key = (id(e), at, spine, self._follow, tuple(sorted(env)))
         if key in self._memo and not env:
             return self._memo[key]
         res = tuple(self._paths_uncached(e, at, stack, env, spine))
@@ -377,6 +516,12 @@ class FuncFacts:
             return out
         # function-style call (module function, self.method(...), constructor, builtin)
         fname = dotted(f) or norm(f)
+        if self._follow:
+            h = self.follow_target(e)
+            if h is not None:
+                got = self._followed(e, h, at, stack, env, spine)
+                if got is not None:
+                    return got
         for pos, a in args:
             out += self._ext(self._paths(a, at, stack, env, spine), Op("arg", fname, e, other=pos))
         out.append(Path(Atom("call", fname, e), (), at))
